@@ -8,9 +8,10 @@
 // ================================================================================================
 
 /// Every window `Window::verify` accepts (Rectangle; Tukey with 0 <= alpha <= 1, unit
-/// config::verif::c07_window_exact) is fingerprinted without tripping
-/// `assert!(qalpha < 65536)`; the two kinds never collide and the fingerprint keeps 16 bits of
-/// alpha.  Complete over every f32 in [0, 1] (including -0.0 and subnormals).
+/// config::verif::c07_window_exact) is fingerprinted without tripping the function's own
+/// `assert!` ("alpha is larger than 1"), and a Tukey window never collides with the rectangular
+/// one.  Complete over every f32 in [0, 1] (including -0.0 and subnormals).  (How much of alpha the
+/// fingerprint keeps is C10's business: lpc::verif::c10_window_key_injective.)
 //@ unit props=C07 tier=quick kind=complete timeout=300 funcs="lpc::fingerprint_window"
 #[kani::proof]
 #[kani::unwind(4)]
@@ -20,9 +21,7 @@ fn c07_fingerprint_window_no_panic() {
     kani::assume(alpha >= 0.0 && alpha <= 1.0); // accepted by verify; excludes NaN
     let fp = fingerprint_window(&Window::Tukey { alpha });
     assert!(fp != rect);
-    assert!(fp >> 56 == 2 && rect >> 56 == 1);
-    assert!((fp & 0x00FF_FFFF_FFFF_FFFF) <= 65535);
-    kani::cover!(alpha == 1.0 && (fp & 0xFFFF) == 65535);
+    kani::cover!(alpha == 1.0);
     kani::cover!(alpha == 0.0 && alpha.is_sign_negative());
     kani::cover!(alpha == 0.4);
 }
